@@ -647,6 +647,33 @@ pub fn scn_history(out: &mut TraceOut, r: &mut R, idx: u64, heavy: bool, ver: u8
     let Some(data) = data else { return };
     let mut s = new_session(out, entries, dict, data);
     let Some(c0) = s.cursor(true) else { return };
+    // edge walk: on a warmed-up cursor, an exact seek on every (sampled) key followed by relative
+    // moves in both directions -- every block edge, every index-table slot, both sides
+    let n = s.content.len();
+    if n > 0 && n <= 400 {
+        let stride = (n / 60).max(1);
+        let mut k = (idx as usize) % stride;
+        while k < n {
+            let key = s.content.entry(k).0;
+            s.op(c0, &Op::Ge(pick(r, &probes).clone()));
+            s.op(c0, &Op::Le(pick(r, &probes).clone()));
+            match k % 3 {
+                0 => s.op(c0, &Op::Eq(key)),
+                1 => s.op(c0, &Op::Ge(key)),
+                _ => s.op(c0, &Op::Le(key)),
+            };
+            if k % 2 == 0 {
+                for op in [Op::Next, Op::Next, Op::Prev, Op::Prev, Op::Prev, Op::Current] {
+                    s.op(c0, &op);
+                }
+            } else {
+                for op in [Op::Prev, Op::Prev, Op::Next, Op::Next, Op::Next, Op::Current] {
+                    s.op(c0, &op);
+                }
+            }
+            k += stride;
+        }
+    }
     let mut live = vec![c0];
     let mut i = 0;
     while i < nops {
